@@ -168,3 +168,130 @@ pub fn run(ctx: &Ctx) {
     install_handler();
     ctx.run_prop("sleep", ctx.cases(200, 4_000), sleep_case(), check_sleep);
 }
+
+// ------------------------------------------------------------------------------------------
+// virtual-time model: `nanosleep` is emulated by the interposer, so durations up to i64::MAX
+// seconds and interruptions with any amount of time remaining cost nothing
+// ------------------------------------------------------------------------------------------
+
+#[derive(Debug, Clone, Serialize, Deserialize)]
+pub struct VSleepCase {
+    pub secs: u64,
+    pub nanos: u32,
+    /// call k of nanosleep (k < len) is interrupted after this fraction (in 1/65536) of the time
+    /// it was asked to sleep; later calls complete
+    pub interrupts: Vec<u16>,
+}
+
+#[derive(Default)]
+struct VClock {
+    slept_ns: u128,
+    calls: u32,
+    plan: Vec<u16>,
+    bad_request: Option<(i64, i64)>,
+    requests: Vec<(i64, i64)>,
+}
+
+thread_local! {
+    static VCLOCK: std::cell::RefCell<VClock> = std::cell::RefCell::new(VClock::default());
+}
+
+/// nanosleep(req, rem) in virtual time. Mirrors the kernel: EINVAL for a malformed request,
+/// EINTR with the remaining time written to `rem` when interrupted, 0 when the time is up.
+fn emulated_nanosleep(args: &[usize; 6]) -> usize {
+    let neg = |e: i32| (-(e as isize)) as usize;
+    let (sec, nsec) = unsafe {
+        let p = args[0] as *const i64;
+        (p.read_unaligned(), p.add(1).read_unaligned())
+    };
+    VCLOCK.with(|v| {
+        let mut v = v.borrow_mut();
+        let k = v.calls as usize;
+        v.calls += 1;
+        v.requests.push((sec, nsec));
+        if sec < 0 || !(0..1_000_000_000).contains(&nsec) {
+            v.bad_request = Some((sec, nsec));
+            return neg(libc::EINVAL);
+        }
+        let req: u128 = sec as u128 * 1_000_000_000 + nsec as u128;
+        if let Some(&f) = v.plan.get(k) {
+            let slept = req * f as u128 / 65536;
+            v.slept_ns += slept;
+            let rem = req - slept;
+            if args[1] != 0 {
+                unsafe {
+                    let r = args[1] as *mut i64;
+                    r.write_unaligned((rem / 1_000_000_000) as i64);
+                    r.add(1).write_unaligned((rem % 1_000_000_000) as i64);
+                }
+            }
+            return neg(libc::EINTR);
+        }
+        v.slept_ns += req;
+        0
+    })
+}
+
+pub fn check_vsleep(c: &VSleepCase) -> CaseResult {
+    let mut rep = CaseReport::new();
+    let nanos = c.nanos % 1_000_000_000;
+    let d = Duration::new(c.secs, nanos);
+    let plan: Vec<u16> = c.interrupts.iter().copied().take(8).collect();
+    VCLOCK.with(|v| *v.borrow_mut() = VClock { plan: plan.clone(), ..VClock::default() });
+    sc::verif::install();
+    sc::verif::plan(vec![sc::verif::Rule { nr: Some(sc::nr::NANOSLEEP), nth: None, action: sc::verif::Action::Emulate(emulated_nanosleep), times: usize::MAX }]);
+    let res = no_panic("thread::sleep", || tiny_std::thread::sleep(d));
+    sc::verif::clear_plan();
+    let res = res?;
+    let (slept, calls, bad, requests) = VCLOCK.with(|v| {
+        let v = v.borrow();
+        (v.slept_ns, v.calls, v.bad_request, v.requests.clone())
+    });
+    let want: u128 = c.secs as u128 * 1_000_000_000 + nanos as u128;
+    let shape = if plan.is_empty() { "uninterrupted" } else if c.secs >= 1 { "interrupted with whole seconds requested" } else { "interrupted sub-second sleep" };
+    if c.secs > i64::MAX as u64 {
+        // not representable as a timespec: documented to be refused ("errors on a malformed
+        // duration"); sleeping the whole time in pieces would be fine too - only a return that
+        // claims the time has passed although it has not is wrong
+        if res.is_ok() {
+            ensure!(slept >= want, format!("thread::sleep|returned-early|unrepresentable duration"), "sleep({d:?}) returned Ok after sleeping {slept} ns in {calls} nanosleep calls");
+        }
+        rep.class("duration-beyond-i64-seconds");
+        return Ok(rep);
+    }
+    ensure!(bad.is_none(), format!("thread::sleep|malformed-request|{shape}"), "sleep({d:?}) passed the timespec {bad:?} to nanosleep (requests so far {requests:?}, interruptions {plan:?})");
+    match res {
+        Ok(()) => {
+            ensure!(slept >= want, format!("thread::sleep|returned-early|{shape}"), "sleep({d:?}) returned Ok after {slept} ns of (virtual) sleeping, {} ns too early: nanosleep requests {requests:?}, interrupted calls sleep {plan:?}/65536 of their request", want - slept);
+        }
+        Err(e) => {
+            vh::fail!(format!("thread::sleep|error-return|{shape}"), "sleep({d:?}) = Err({e}) although nanosleep only ever answered 0 or EINTR (requests {requests:?})");
+        }
+    }
+    ensure!(calls as usize <= plan.len() + 1, format!("thread::sleep|slept-again-after-completion|{shape}"), "sleep({d:?}): {calls} nanosleep calls for {} interruptions (requests {requests:?})", plan.len());
+    rep.nontrivial_if(!plan.is_empty());
+    rep.class_if(plan.is_empty(), "vsleep-uninterrupted");
+    rep.class_if(!plan.is_empty(), "vsleep-interrupted");
+    rep.class_if(!plan.is_empty() && requests.get(1).map(|r| r.0 >= 1).unwrap_or(false), "vsleep-interrupted-with-whole-seconds-remaining");
+    rep.class_if(plan.len() >= 3, "vsleep-3+-interruptions");
+    rep.class_if(c.secs >= (1 << 40), "vsleep-huge-duration");
+    rep.class_if(want == 0, "vsleep-zero");
+    Ok(rep)
+}
+
+fn vsleep_case() -> impl Strategy<Value = VSleepCase> {
+    let secs = prop_oneof![
+        3 => 0u64..4,
+        3 => 0u64..100_000,
+        2 => any::<u64>().prop_map(|x| x >> 1),
+        1 => prop::sample::select(vec![i64::MAX as u64, i64::MAX as u64 - 1, u32::MAX as u64, u32::MAX as u64 + 1, 1 << 31]),
+        1 => any::<u64>(),
+    ];
+    let nanos = prop_oneof![2 => Just(0u32), 2 => Just(999_999_999u32), 1 => Just(1u32), 4 => 0u32..1_000_000_000];
+    let frac = prop_oneof![2 => Just(0u16), 2 => Just(65535u16), 1 => Just(1u16), 5 => any::<u16>()];
+    (secs, nanos, prop::collection::vec(frac, 0..5)).prop_map(|(secs, nanos, interrupts)| VSleepCase { secs, nanos, interrupts })
+}
+
+pub fn run_virtual(ctx: &Ctx) {
+    ctx.run_prop("sleep-virtual", ctx.cases(20_000, 1_000_000), vsleep_case(), check_vsleep);
+}
